@@ -6,7 +6,7 @@ FAMILY = "buffer"
 # own callback trace; the answer is "FAIL <violated clause> model=<model line>" on any difference.
 STREAMS = {
     "buf": {"quick": 15000, "thorough": 300000, "mode": "judge", "trivial": ["bad-op", "nobuf", "ok"]},
-    "proc": {"quick": 1200, "thorough": 20000, "mode": "judge", "timeout": 3000,
+    "proc": {"quick": 900, "thorough": 20000, "mode": "judge", "timeout": 3000,
              "trivial": ["bad-op", "noproc", "ok", "nobatch", "-", "timeout"]},
 }
 
@@ -40,19 +40,22 @@ PROPS = {
         "streams": ["proc"],
         "claim": "Proof (model = semaphore counters + process() + C14 buffer run by the single inserter; far-future constant/condition, "
                  "re-request condition, reassembly loop conditions, tryAcquire/Release conditions and arithmetic regenerated from the "
-                 "source): C15_ordered_batch_in_order - for every permutation of result arrivals an ordered batch is handed to "
-                 "process() in batch order and finishes; C15_far_future_never_processed / C15_rejected_never_processed - such events "
-                 "get their single Released inside process() and never reach the buffer; C15_semaphore_within_capacity - held <= "
-                 "capacity for all operation sequences; C15_semaphore_balanced_partial - held = acquired - released (events and bytes) "
-                 "as long as the warning callback has not fired (missing: that it never fires); C15_released_exactly_once_partial - "
-                 "after Stop every copy that reached the buffer has exactly one Released and the buffer is empty (missing: the "
-                 "per-enqueued-event statement on the processor-level trace). Partial by nature: goroutine interleavings beyond the "
-                 "oracles (result arrival order, position of Stop). Correspondence: real dagprocessor.Processor with CheckParentless "
-                 "results completed in harness-chosen order across several outstanding batches, small buffer/semaphore limits, "
-                 "far-future boundary Lamports, failing checks, Stop with a half-delivered batch; callback trace incl. HighestLamport, "
-                 "push order, notifyAnnounces, done() with semaphore/buffer readings, final semaphore amount compared; P_C15 on the "
-                 "implementation's trace (released at most once, exactly once for finished batches after Stop, ordered batches in "
-                 "order, semaphore within capacity and balanced at Stop).",
+                 "source), for ALL sequences of Enqueue / check-result arrivals (any order, any interleaving of batches) / Stop and all "
+                 "oracles: C15_released_exactly_once - after Stop every event has exactly as many Released as process() calls, "
+                 "whatever its fate (processed, rejected, far-future, duplicate, connected, spilled), every buffer copy has exactly one "
+                 "Released and the buffer is empty; C15_released_at_most_once - before Stop the difference is exactly the copies still "
+                 "buffered; C15_ordered_batch_in_order / C15_unordered_batch_each_once - for every permutation of result arrivals a "
+                 "batch hands each event to process() exactly once, ordered batches in batch order; C15_far_future_never_processed / "
+                 "C15_rejected_never_processed - such events get their single Released inside process() and never reach the buffer "
+                 "(bound shown tight); C15_semaphore_within_capacity - held <= capacity always; C15_semaphore_balanced_partial - held = "
+                 "acquired - released (events and bytes) as long as the warning callback has not fired (missing: that it never fires, "
+                 "which needs the per-batch bookkeeping that no check result is delivered twice). Partial by nature: goroutine "
+                 "interleavings beyond the oracles (result arrival order, position of Stop). Correspondence: real dagprocessor.Processor "
+                 "with CheckParentless results completed in harness-chosen order across several outstanding batches, small "
+                 "buffer/semaphore limits, far-future boundary Lamports, failing checks, Stop with a half-delivered batch; callback "
+                 "trace incl. HighestLamport, push order, notifyAnnounces, done() with semaphore/buffer readings, semaphore warning "
+                 "callback, final semaphore amount compared; P_C15 on the implementation's trace (released at most once, exactly once "
+                 "for finished batches after Stop, ordered batches in order, semaphore within capacity and balanced at Stop).",
         "note": "Trusted: Lean kernel, extractor, harness + judge driver. Synchronisation in the harness is by callbacks only "
                 "(count of process() starts and done() calls enabled by the delivered results); Enqueue's Acquire is modelled at a "
                 "quiescent moment (busy = does not fit after everything deliverable was handled; the harness uses a 250 ms semaphore "
